@@ -34,7 +34,7 @@ func TestVerif(t *testing.T) {
 			"object key order and whitespace of the file are not part of 'preserved'; values are compared as JSON values with numbers compared exactly",
 		},
 		Jobs:           jobs,
-		BudgetQuick:    240,
+		BudgetQuick:    400,
 		BudgetThorough: 1500,
 	})
 }
